@@ -399,6 +399,7 @@ func runC03(c *Ctx) {
 					}
 				}
 				c.check(guard, "R4", "recv delivers only to a registered channel", pos(snd), "unknown ids end the session instead of blocking on a nil channel", "recv sends on the looked-up channel without testing ok: an unknown id blocks the receiver forever")
+				checkUnknownIDEndsSession(c, "R4")
 			}
 		}
 	}
@@ -839,6 +840,14 @@ func runC04(c *Ctx) {
 				}
 			})
 			c.check(waits && closes, "R6", "Close closes the writer and waits for the receiver", p.Pos(cl.Pos()), "conn.Close() and wg.Wait()", "clientConn.Close does not both close the connection and wait for the receiver goroutine")
+			// on every path: a Close that reports an error has still torn the link down, and must not return
+			// while the receiver goroutine is alive and the waiters have not been told
+			isJoin := func(in ssa.Instruction) bool {
+				cc := callOf(in)
+				return cc != nil && isWGCall(cc, "Wait")
+			}
+			skips := reachAvoiding(cl, nil, isReturn, isJoin)
+			c.check(!skips, "R6", "Close joins the receiver on every path", p.Pos(cl.Pos()), "wg.Wait() (plain or deferred) before every return", "clientConn.Close can return without waiting for the receiver goroutine (for instance when the transport's Close reports an error): the goroutine survives Close and outstanding callers have not been notified yet")
 		}
 		if w := p.Func("(*clientConn).Wait"); w == nil {
 			c.missing("R6", "(*clientConn).Wait")
@@ -1274,5 +1283,52 @@ func checkBroadcastErr(c *Ctx, rule string, bcast *ssa.Function) {
 				}
 			})
 		}
+	}
+}
+
+
+// checkUnknownIDEndsSession (C03.R4, C20.Z7): the not-ok branch of recv's table lookup ends recv with an error — the
+// request that reply belonged to can never be answered, so carrying on would leave its caller waiting for ever.
+func checkUnknownIDEndsSession(c *Ctx, rule string) {
+	p := c.P
+	recv := p.Func("(*clientConn).recv")
+	get := p.Func("(*clientConn).getChannel")
+	if recv == nil || get == nil {
+		c.missing(rule, "(*clientConn).recv / getChannel")
+		return
+	}
+	n := 0
+	eachInstr(recv, func(in ssa.Instruction) {
+		call, ok := in.(*ssa.Call)
+		if !ok || call.Call.StaticCallee() != get {
+			return
+		}
+		for _, r0 := range *call.Referrers() {
+			okEx, isEx := r0.(*ssa.Extract)
+			if !isEx || okEx.Index != 1 {
+				continue
+			}
+			for _, r := range *okEx.Referrers() {
+				iff, ok := r.(*ssa.If)
+				if !ok {
+					continue
+				}
+				n++
+				var head func(ssa.Instruction) bool
+				if l := innermostLoop(loopsOf(recv), iff.Block()); l != nil {
+					head = isLoopHeadStart(l)
+				}
+				goesOn := head != nil && reachFromBlock(iff.Block().Succs[1], head, isReturn)
+				nilRet := reachFromBlock(iff.Block().Succs[1], func(in ssa.Instruction) bool {
+					rt, ok := in.(*ssa.Return)
+					return ok && isReturn(in) && isNilConst(rt.Results[0])
+				}, nil)
+				c.check(!goesOn && !nilRet, rule, "a reply with an unknown id ends the session", p.Pos(call.Pos()), "recv returns an error, so broadcastErr fails every outstanding call",
+					"recv drops a reply whose id it does not know and carries on: the request whose reply had its id damaged is never answered and its caller waits for ever")
+			}
+		}
+	})
+	if n == 0 {
+		c.bad(rule, "a reply with an unknown id ends the session", p.Pos(recv.Pos()), "recv does not test whether the id of a reply is known")
 	}
 }
